@@ -19,7 +19,7 @@ from vt.ref import peg
 
 ID = "C01"
 LEVEL = "exploration"
-CASES = {"quick": 1500, "thorough": 120000}
+CASES = {"quick": 6000, "thorough": 300000}
 NINPUTS = 6
 RULE = ("generated grammars (<=6 rules, nesting depth<=3) x configurations x 6 inputs each (derived from the grammar, 40% "
         "with 1-2 token mutations, generated layout incl. comments); one evaluation = one grammar with its inputs. "
